@@ -20,7 +20,7 @@ inductive XOp where
   | subtree (names : List String) (ignoreMissing keepRoot : Bool)
   | newick
 
-def applyX [Add K] [Zero K] [DecidableEq K] (t : PTree K) : XOp → Option (PTree K)
+def applyX [Add K] (t : PTree K) : XOp → Option (PTree K)
   | .reroot p => rerootAt t p
   | .sorted o => some (sorted t o)
   | .copy => some t
@@ -40,7 +40,7 @@ def keptAll : List XOp → String → Bool
   | [] => fun _ => true
   | op :: ops => fun x => keptX op x && keptAll ops x
 
-def applyXs [Add K] [Zero K] [DecidableEq K] : PTree K → List XOp → Option (PTree K)
+def applyXs [Add K] : PTree K → List XOp → Option (PTree K)
   | t, [] => some t
   | t, op :: ops =>
     match applyX t op with
